@@ -1,5 +1,6 @@
 import MokapotVerif.Wire
 import MokapotVerif.Model.Calibrate
+import MokapotVerif.Model.CalibrateKeep
 /-! Driver glue for `Model/Calibrate.lean`. -/
 namespace Mk.Ops.Calibrate
 open Mk Mk.Calibrate V
@@ -136,6 +137,39 @@ def opGateFlags : List V → Option V
       some (ofList ofBool (gateFlags ms))
   | _ => none
 
+def toModelKeep? : V → Option (Bool × Nat) := toPair? toBool? toNat?
+
+def ofBrewRes : Except CalErr (Option BrewOut) → V
+  | Except.error e => ofCalErr e
+  | Except.ok none => atom "reject-nonfinite"
+  | Except.ok (some (BrewOut.kept sc)) => list [atom "kept", ofList (ofList ofXR) sc]
+  | Except.ok (some (BrewOut.bestFeature i)) => list [atom "feature", ofNat i]
+
+/-- `brewkeep <chunk> [flags] <thr> [[override feat_pass] ...] [[[fold raw target] ...] ...]` → model of what
+`brew` returns as scores (brew.py:243-291; models in fold order): `[kept [[..] ..]]`, `[feature <model index>]`,
+the error of `_predict`, or `reject-nonfinite` -/
+def opBrewKeep : List V → Option V
+  | [c, dfs, t, ms, colls] => do
+      let c ← toNat? c
+      let dfs ← toList? toBool? dfs
+      let thr ← toRat? t
+      let ms ← toList? toModelKeep? ms
+      let colls ← toList? (toList? toFRow?) colls
+      some (ofBrewRes (brewReturn c dfs thr ms colls))
+  | _ => none
+
+/-- `keepspec <thr> [[override feat_pass] ...] [[score ...] ...] [[[fold raw target] ...] ...]` → the spec of the
+decision evaluated on given score vectors by the defining formula of the q-value (no `tdc`, no labels):
+`[<kept?> <accepted targets over all collections> <largest feat_pass>]` -/
+def opKeepSpec : List V → Option V
+  | [t, ms, scs, colls] => do
+      let thr ← toRat? t
+      let ms ← toList? toModelKeep? ms
+      let scs ← toList? (toList? toRat?) scs
+      let colls ← toList? (toList? toFRow?) colls
+      some (list [ofBool (keptSpecB thr ms scs colls), ofNat (acceptedTotal thr scs colls), ofNat (maxFeatPass ms)])
+  | _ => none
+
 end Mk.Ops.Calibrate
 
 namespace Mk.Ops
@@ -144,6 +178,7 @@ open Mk V Mk.Ops.Calibrate
 def calibrateOps : List (String × (List V → Option V)) :=
   [("calib", opCalib), ("calspec", opCalSpec), ("predict", opPredict), ("predspec", opPredSpec),
    ("median", opMedian), ("predictdf", opPredictDF), ("predictcolls", opPredictColls),
-   ("rescale", opRescale), ("predictresc", opPredictResc), ("gateflags", opGateFlags)]
+   ("rescale", opRescale), ("predictresc", opPredictResc), ("gateflags", opGateFlags),
+   ("brewkeep", opBrewKeep), ("keepspec", opKeepSpec)]
 
 end Mk.Ops
